@@ -126,6 +126,11 @@ def run_one(args):
         if ok and case.get('rules'):
             ok = any(any(r.startswith(w) for r in rules for w in case['rules']) for _, _, rules, _ in res)
         return (case['id'], 'killed' if ok else 'SURVIVED', '', res)
+    if kind == 'noviolation':
+        # a behaviour-preserving rewrite so deep that a rule may decline to read it (ANALYSIS-ERROR, exit 2); what must never
+        # happen is a VIOLATION
+        ok = all(code in (0, 2) for _, code, _, _ in res)
+        return (case['id'], 'silent' if ok else 'FALSE-ALARM', '', res)
     ok = all(code == 0 for _, code, _, _ in res)
     return (case['id'], 'silent' if ok else 'FALSE-ALARM', '', res)
 
